@@ -75,7 +75,16 @@ def native_of(T_, mv):
             setattr(obj, k, native_of(ft, mv["fields"][k]))
         return obj
     if isinstance(T_, TList):
+        if isinstance(mv, dict) and "list_len" in mv:
+            head = [native_of(T_.elem, x) for x in mv["head"]]
+            if mv["list_len"] > (1 << 26):
+                raise ValueError("model list too long to materialise (%d elements)" % mv["list_len"])
+            return head + [head[-1]] * (mv["list_len"] - len(head))
         return [native_of(T_.elem, x) for x in mv]
+    if isinstance(T_, TOpaque):
+        if T_.native is None:
+            raise ValueError("opaque %s has no native representative" % T_.tag)
+        return T_.native()
     raise ValueError("cannot build native value of %r" % (T_,))
 
 
@@ -87,7 +96,29 @@ def native_clause_env(contract, args, result=None):
     return env
 
 
-def replay_obligation(contract, agg_ob, pid):
+class _Timeout(Exception):
+    pass
+
+
+def replay_obligation(contract, agg_ob, pid, limit_s=60):
+    """Native replay under a wall-clock limit (a replay that does not finish is 'not_replayable', never a hang)."""
+    import signal
+
+    def _alarm(signum, frame):
+        raise _Timeout()
+    old_h = signal.signal(signal.SIGALRM, _alarm)
+    signal.alarm(limit_s)
+    try:
+        return _replay_obligation(contract, agg_ob, pid)
+    except _Timeout:
+        return dict(function=contract.key, obligation=agg_ob["name"], kind=agg_ob["kind"], label=agg_ob["label"], line=agg_ob.get("line"),
+                    model=agg_ob.get("model"), verdict="not_replayable", detail="native replay exceeded %d s" % limit_s, args_native=None)
+    finally:
+        signal.alarm(0)
+        signal.signal(signal.SIGALRM, old_h)
+
+
+def _replay_obligation(contract, agg_ob, pid):
     """Run the real function natively on the counter-model and evaluate the contract natively.
     verdict: confirmed | spurious | no_model | not_replayable"""
     model = agg_ob.get("model")
@@ -109,7 +140,7 @@ def replay_obligation(contract, agg_ob, pid):
         out["detail"] = "cannot build native arguments: %s" % e
         return out
     out["args_native"] = {k: v for k, v in args.items()}
-    out["args_repr"] = {k: repr(v) for k, v in args.items()}
+    out["args_repr"] = {k: (repr(v) if not (isinstance(v, list) and len(v) > 64) else "list of %d elements starting %r" % (len(v), v[:8])) for k, v in args.items()}
     try:
         env = native_clause_env(contract, copy.deepcopy(args))
         for cl in contract.requires + contract.variant_requires.get(agg_ob["variant"], []):
